@@ -21,11 +21,11 @@ CHECKS = {
             'paragraph layouts, repeated item IDs across stories, moves of 3-5 sources straddling the target, padded IDs, random histories. '
             'C02_unique_item_ids_preserved / _everywhere: unique item IDs per story is an invariant under executable freshness conditions.',
             'section 5 C02', 'Coq theorems on a Gallina model + extracted-model differential run'),
-    'C05': ('proof', 'Theorems C05_failed_merge_is_identity / C05_any_running_order: for every document with a roCreate element, every class and every message with an '
-            'integer messageID, if ro + m raises the document is unchanged (the model carries the state at the point of failure, so '
+    'C05': ('proof', 'Theorems C05_failed_merge_is_identity / C05_any_running_order / C05_any_running_order_any_message: for every document with a roCreate element, every class and every parsed message '
+            '(with or without a usable messageID, since repair F29), if ro + m raises the document is unchanged (the model carries the state at the point of failure, so '
             'this is about the order of checks and edits in all 24 merges); C05_nonstrict_sequences: a non-strict merge equals the fold '
             'over the messages that did not fail. Correspondence: k-th-of-n unresolvable IDs, swap/move operand combinations, '
-            'exhaustive small message spaces, running orders with blank-ID / ID-less placeholder stories, random histories, non-strict collections with every failing subset.',
+            'exhaustive small message spaces, running orders with blank-ID / ID-less placeholder stories, messages with any one element (messageID included) removed or a blank / non-integer messageID, random histories on fresh and on live objects, non-strict collections with every failing subset.',
             'section 5 C05', 'Coq theorems on a Gallina model + extracted-model differential run'),
     'C07': ('proof', 'Theorems C07_rodelete_marks, C07_terminal (all classes, any later history), C07_never_spurious (invariant over any '
             'history without roDelete) proved in Coq; the serialise / re-read / re-classify round trip is checked on the real code at '
